@@ -25,11 +25,18 @@ var c06OptStates = []string{"v", "missing", "nil"}
 
 var c06OptNames = []string{"title", "sidebar", "slot", "toolbar", "left", "over", "v", "t-s", "vslot", "s", "o1", "default-x", "header2", "x_y"}
 
-func c06NOpt(ctx core.Ctx) int { return 3*81*2 + 3*2 + 3*2*2 + len(c06OptNames)*4*2 + 3*2 }
+func c06NOpt(ctx core.Ctx) int { return 3*81*2 + 3*2 + 3*2*2 + len(c06OptNames)*4*2 + 3*2 + 4*2 }
 
 func c06BuildOpt(i int) c06Case {
 	o := c06Opt{Entry: []string{"vue", "file"}[i%2]}
 	i /= 2
+	if i >= 3*81+3+6+len(c06OptNames)*4+3 {
+		// fallbacks that are markup with self-closed void tags in front: supplied / not supplied per slot
+		o.Shape = "fbmarkup"
+		j := i - (3*81 + 3 + 6 + len(c06OptNames)*4 + 3)
+		o.Notes = []string{[]string{"-", "h"}[j%2], []string{"-", "d"}[(j/2)%2]}
+		return c06Case{Part: "opt", Opt: &o}
+	}
 	if i >= 3*81+3+6+len(c06OptNames)*4 {
 		// slot props computed by an expression that calls a function (the ones every expression can call: len, upper, lower)
 		o.Shape = "fnprops"
@@ -164,8 +171,66 @@ func c06ExecOptFnProps(c c06Case, o *core.Obs) {
 	}
 }
 
+func c06ExecOptFbMarkup(c c06Case, o *core.Obs) {
+	op := c.Opt
+	supH, supD := op.Notes[0] == "h", op.Notes[1] == "d"
+	body := ""
+	if supH {
+		body += `<template #h><b data-m="H">head</b></template>`
+	}
+	if supD {
+		body += `<i data-m="D">dflt</i>`
+	}
+	page := `<template include="comp.vuego">` + body + `</template>`
+	comp := `<div data-m="comp"><header data-m="sh"><slot name="h"><hr/> <small data-m="FBh">fb</small></slot></header>` +
+		`<main data-m="sd"><slot><br/><img src="x.png"/><em data-m="FBd">fb</em> tail</slot></main><footer data-m="after">after</footer></div>`
+	files := map[string]string{"page.vuego": page, "comp.vuego": comp}
+	var out string
+	var err error
+	if op.Entry == "vue" {
+		out, err = renderVue(memFS(files), "page.vuego", map[string]any{})
+	} else {
+		out, err = renderFile(memFS(files), "page.vuego", map[string]any{})
+	}
+	o.Evals++
+	o.NT("opt-fbmarkup", mustJSON(op))
+	o.Cell("part/opt/fbmarkup")
+	if err != nil {
+		o.Fail(c, "opt/fbmarkup/render-error", "render failed: %v\npage: %s", err, page)
+		return
+	}
+	doc := oracle.Parse(out, false)
+	in := func(slot string) string {
+		w := doc.ByAttr("data-m", slot)
+		if len(w) != 1 {
+			return "?"
+		}
+		var ms []string
+		for _, m := range w[0].AllMarkers("data-m") {
+			if m != slot {
+				ms = append(ms, m)
+			}
+		}
+		return strings.Join(ms, ",")
+	}
+	wantH, wantD := "FBh", "FBd"
+	if supH {
+		wantH = "H"
+	}
+	if supD {
+		wantD = "D"
+	}
+	if gh, gd := in("sh"), in("sd"); gh != wantH || gd != wantD || len(doc.ByAttr("data-m", "after")) != 1 {
+		o.Fail(c, "opt/fbmarkup/fallback-and-content-mixed", "fallbacks holding self-closed void tags: named slot holds [%s] (want [%s]), unnamed slot holds [%s] (want [%s])\npage: %s\ncomponent: %s\noutput: %s", gh, wantH, gd, wantD, page, comp, out)
+	}
+}
+
 func c06ExecOpt(c c06Case, o *core.Obs) {
 	op := c.Opt
+	if op.Shape == "fbmarkup" {
+		c06ExecOptFbMarkup(c, o)
+		return
+	}
 	if op.Shape == "fnprops" {
 		c06ExecOptFnProps(c, o)
 		return
